@@ -13,6 +13,7 @@ import (
 	"crypto/x509"
 	"crypto/x509/pkix"
 	"encoding/hex"
+	"errors"
 	"fmt"
 	"math/big"
 	"net"
@@ -60,6 +61,44 @@ type fakeNode struct {
 	succ        []chord.VNode
 	succErr     error
 	muts        []mutation
+	racer       *racer
+	faultKey    string
+	faultErr    error
+}
+
+// setGetFault: Get of exactly this key fails with err until cleared (the owner of the key is unavailable)
+func (n *fakeNode) setGetFault(key string, err error) {
+	n.mu.Lock()
+	n.faultKey, n.faultErr = key, err
+	n.mu.Unlock()
+}
+
+func (n *fakeNode) setRacer(g *racer) {
+	n.mu.Lock()
+	n.racer = g
+	n.mu.Unlock()
+}
+
+// gate: operations of a request marked for the race family pass the racer (main.go); everything else runs straight through
+func (n *fakeNode) gate(ctx context.Context, op string, key []byte) func(res string) {
+	n.mu.Lock()
+	g := n.racer
+	n.mu.Unlock()
+	tag, _ := ctx.Value(raceTag{}).(int)
+	if g == nil || tag == 0 {
+		return func(string) {}
+	}
+	return g.enter(tag, op, key)
+}
+
+func resOf(err error) string {
+	if err == nil {
+		return "ok"
+	}
+	if errors.Is(err, chord.ErrKVLeaseConflict) {
+		return "conflict"
+	}
+	return "err:" + err.Error()
 }
 
 func (n *fakeNode) store() *memory.MemoryKV {
@@ -100,14 +139,29 @@ func (n *fakeNode) GetSuccessors() ([]chord.VNode, error) {
 
 func (n *fakeNode) Put(ctx context.Context, key, value []byte) error {
 	n.log("Put", key)
-	return n.store().Put(ctx, key, value)
+	done := n.gate(ctx, "Put", key)
+	err := n.store().Put(ctx, key, value)
+	done(resOf(err))
+	return err
 }
 func (n *fakeNode) Get(ctx context.Context, key []byte) ([]byte, error) {
-	return n.store().Get(ctx, key)
+	n.mu.Lock()
+	fk, fe := n.faultKey, n.faultErr
+	n.mu.Unlock()
+	if fe != nil && fk == string(key) {
+		return nil, fe
+	}
+	done := n.gate(ctx, "Get", key)
+	v, err := n.store().Get(ctx, key)
+	done(resOf(err))
+	return v, err
 }
 func (n *fakeNode) Delete(ctx context.Context, key []byte) error {
 	n.log("Delete", key)
-	return n.store().Delete(ctx, key)
+	done := n.gate(ctx, "Delete", key)
+	err := n.store().Delete(ctx, key)
+	done(resOf(err))
+	return err
 }
 func (n *fakeNode) PrefixAppend(ctx context.Context, prefix, child []byte) error {
 	n.log("PrefixAppend", prefix)
@@ -117,15 +171,28 @@ func (n *fakeNode) PrefixList(ctx context.Context, prefix []byte) ([][]byte, err
 	return n.store().PrefixList(ctx, prefix)
 }
 func (n *fakeNode) PrefixContains(ctx context.Context, prefix, child []byte) (bool, error) {
-	return n.store().PrefixContains(ctx, prefix, child)
+	done := n.gate(ctx, "PrefixContains", prefix)
+	b, err := n.store().PrefixContains(ctx, prefix, child)
+	if err == nil {
+		done(fmt.Sprint(b))
+	} else {
+		done(resOf(err))
+	}
+	return b, err
 }
 func (n *fakeNode) PrefixRemove(ctx context.Context, prefix, child []byte) error {
 	n.log("PrefixRemove", prefix)
-	return n.store().PrefixRemove(ctx, prefix, child)
+	done := n.gate(ctx, "PrefixRemove", prefix)
+	err := n.store().PrefixRemove(ctx, prefix, child)
+	done(resOf(err))
+	return err
 }
 func (n *fakeNode) Acquire(ctx context.Context, lease []byte, ttl time.Duration) (uint64, error) {
 	n.log("Acquire", lease)
-	return n.store().Acquire(ctx, lease, ttl)
+	done := n.gate(ctx, "Acquire", lease)
+	t, err := n.store().Acquire(ctx, lease, ttl)
+	done(resOf(err))
+	return t, err
 }
 func (n *fakeNode) Renew(ctx context.Context, lease []byte, ttl time.Duration, prev uint64) (uint64, error) {
 	n.log("Renew", lease)
@@ -133,7 +200,10 @@ func (n *fakeNode) Renew(ctx context.Context, lease []byte, ttl time.Duration, p
 }
 func (n *fakeNode) Release(ctx context.Context, lease []byte, token uint64) error {
 	n.log("Release", lease)
-	return n.store().Release(ctx, lease, token)
+	done := n.gate(ctx, "Release", lease)
+	err := n.store().Release(ctx, lease, token)
+	done(resOf(err))
+	return err
 }
 func (n *fakeNode) Import(ctx context.Context, keys [][]byte, values []*protocol.KVTransfer) error {
 	n.log("Import", nil)
